@@ -57,7 +57,7 @@ _Bool g_vc_string_nothrow; /* ghost in */
         __CPROVER_assume(0 && what);                                                                              \
     }
 #define VC_STRING_NO_LIVE_ITER(s) \
-    __CPROVER_assert((s)->g_iter == 0, "std::string stub: growing call while a pointer/iterator into the string is live (invalidation not modelled)")
+    __CPROVER_assert((*(s)).g_iter == 0, "std::string stub: growing call while a pointer/iterator into the string is live (invalidation not modelled)")
 
 /* basic_string() : size() == 0 */
 static inline struct vc_string vc_string_new(void)
@@ -85,15 +85,18 @@ static inline void vc_string_reserve(struct vc_string *s, size_t n)
         VC_STRING_THROW("length_error");
 }
 
-/* push_back(c) / operator+=(char c): size() grows by one, the new last character is c, the others are unchanged */
-static inline void vc_string_push_back(struct vc_string *s, char c)
-{
-    VC_STRING_NO_LIVE_ITER(s);
-    if (s->size == s->cap)
-        VC_STRING_THROW("length_error / bad_alloc");
-    s->p[s->size] = c;
-    s->size++;
-}
+/* push_back(c) / operator+=(char c): size() grows by one, the new last character is c, the others are unchanged.
+ * A macro over the string lvalue (the extraction passes &name, so *(sp) is the variable itself): an inline function
+ * taking a pointer costs six pointer obligations per member access at every one of the many call sites. */
+#define vc_string_push_back(sp, c)                                                                                \
+    {                                                                                                             \
+        char vc_string_c = (char)(c);                                                                             \
+        VC_STRING_NO_LIVE_ITER(sp);                                                                               \
+        if ((*(sp)).size == (*(sp)).cap)                                                                          \
+            VC_STRING_THROW("length_error / bad_alloc");                                                          \
+        (*(sp)).p[(*(sp)).size] = vc_string_c;                                                                    \
+        (*(sp)).size++;                                                                                           \
+    }
 
 /* resize(n): modelled on an empty string only; the n new characters are value-initialised (0).  Exact-size storage. */
 static inline void vc_string_resize(struct vc_string *s, size_t n)
